@@ -8,7 +8,7 @@ git -C /repo worktree add -f --detach $WT HEAD >/dev/null 2>&1
 cd /tmp
 timeout 600 env PYTHONPATH=/repo/src PYTHONHASHSEED=0 /venv/bin/python $OUT/demo.py > /tmp/confirm_$N.clean 2>&1; RC_CLEAN=$?
 timeout 600 env PYTHONPATH=$WT/src PYTHONHASHSEED=0 /venv/bin/python $OUT/demo.py > /tmp/confirm_$N.mut 2>&1; RC_MUT=$?
-BL=$(/verif/tools/baseline.sh $WT | head -1)
+/verif/tools/baseline.sh $WT > /tmp/confirm_$N.baseline 2>&1; BL=$(head -1 /tmp/confirm_$N.baseline)
 git -C /repo worktree remove --force $WT
 echo "$N: demo_clean_rc=$RC_CLEAN demo_mutated_rc=$RC_MUT baseline: $BL"
 if [ $RC_CLEAN = 0 ] && [ $RC_MUT != 0 ] && echo "$BL" | grep -q "baseline_not_passing=0"; then
